@@ -360,18 +360,49 @@ Proof.
       try lia; repeat constructor; simpl; lia.
 Qed.
 
+Lemma op_rewrite_mono fr tag ref len data e :
+  f_cache fr = true -> e <= f_end fr -> 0 <= len ->
+  forall fr' w, op_rewrite fr tag ref len data = (fr', w) -> mono e fr fr' w.
+Proof.
+  intros Hc He Hl fr' w. unfold op_rewrite.
+  destruct (find_dd (f_blocks fr) tag ref) as [[bi i]|]; [|intros H; inversion H; subst; apply mono_refl].
+  destruct (nth_error (f_blocks fr) bi) as [mb|]; [|intros H; inversion H; subst; apply mono_refl].
+  destruct (nth_error (b_dds (m_blk mb)) i) as [d|]; [|intros H; inversion H; subst; apply mono_refl].
+  destruct (update_dd fr bi i _) as [fr1 w1] eqn:U1.
+  destruct (update_dd_mono _ _ _ _ e Hc He _ _ U1) as [Hw1 M1]. destruct M1 as (A1 & B1 & C1 & D1).
+  destruct (getdiskblock fr1 len) as [[off fr2] w2] eqn:G.
+  destruct (getdiskblock_mono fr1 len e (eq_trans A1 Hc) Hl ltac:(lia) _ _ _ G) as (Hoff & Hw2 & M2 & Hend).
+  destruct M2 as (A2 & B2 & C2 & D2).
+  destruct (update_dd fr2 bi i _) as [fr3 w3] eqn:U.
+  destruct (update_dd_mono fr2 _ _ _ e ltac:(congruence) ltac:(lia) _ _ U) as [Hw3 M3].
+  destruct M3 as (A3 & B3 & C3 & D3).
+  assert (M : mono e fr fr3 (w1 ++ w2 ++ w3)).
+  { unfold mono. repeat split; try congruence; try lia. repeat (apply Forall_app; split); auto. }
+  destruct M as (A5 & B5 & C5 & D5).
+  destruct data as [|b0 data'].
+  - intros H. injection H as <- <-. repeat split; auto.
+  - intros H. injection H as <- <-.
+    replace (w1 ++ w2 ++ w3 ++ [(off, b0 :: data')]) with ((w1 ++ w2 ++ w3) ++ [(off, b0 :: data')])
+      by (rewrite <- !app_assoc; reflexivity).
+    apply (mono_trans e fr fr3); [repeat split; auto|].
+    destruct (Z.ltb_spec (f_end fr3) (off + zlen (b0 :: data'))); unfold mono, hd_ndds; simpl; repeat split; auto;
+      try lia; repeat constructor; simpl; lia.
+Qed.
+
 Lemma op_ok1_len o : op_ok1 o = true ->
-  match o with OpPut _ _ l _ => 0 <= l | OpPutNew _ l _ => 0 <= l | OpCopy _ _ l _ => 0 <= l | _ => True end.
+  match o with OpPut _ _ l _ => 0 <= l | OpPutNew _ l _ => 0 <= l | OpCopy _ _ l _ => 0 <= l
+             | OpRewrite _ _ l _ => 0 <= l | _ => True end.
 Proof.
   destruct o; simpl; auto; intros H; repeat (apply andb_prop in H; destruct H as [H ?]);
     match goal with X : (0 <=? ?l) = true |- 0 <= ?l => apply Z.leb_le in X; exact X end.
 Qed.
 
 Lemma op_ok_ok1 o : op_ok o = true -> op_ok1 o = true.
-Proof. destruct o; simpl; auto. Qed.
+Proof. destruct o; simpl; auto; intros; discriminate. Qed.
 
 Lemma op_ok_len o : op_ok o = true ->
-  match o with OpPut _ _ l _ => 0 <= l | OpPutNew _ l _ => 0 <= l | OpCopy _ _ l _ => 0 <= l | _ => True end.
+  match o with OpPut _ _ l _ => 0 <= l | OpPutNew _ l _ => 0 <= l | OpCopy _ _ l _ => 0 <= l
+             | OpRewrite _ _ l _ => 0 <= l | _ => True end.
 Proof. intros H. apply op_ok1_len. apply op_ok_ok1. exact H. Qed.
 
 Lemma forallb_ok_ok1 ops : forallb op_ok ops = true -> forallb op_ok1 ops = true.
@@ -395,7 +426,8 @@ Proof.
       - eapply op_putn_mono; eauto.
       - eapply op_del_mono; eauto.
       - eapply op_get_mono; eauto.
-      - eapply op_copy_mono; eauto. }
+      - eapply op_copy_mono; eauto.
+      - eapply op_rewrite_mono; eauto. }
     destruct (run_ops fr1 r) as [fr2 w2] eqn:R2.
     destruct M1 as (A & B & C & D).
     pose proof (IH fr1 e ltac:(congruence) ltac:(congruence) ltac:(lia) Hr _ _ R2) as M2.
